@@ -14,6 +14,7 @@ import (
 	"time"
 
 	"vspec/ngap38413"
+	"vspec/per"
 	"vspec/vc"
 )
 
@@ -169,7 +170,7 @@ func vcCheckWalk(name string, b []byte, e vcExpect, amf, ran int64, nas []byte) 
 }
 
 // prop: C13
-// bound: the 8 message constructors x AMF-UE-NGAP-ID in {0,1,255,256,65535,65536,2^32,2^40-1} x RAN-UE-NGAP-ID in {0,1,2^32-1} x NAS-PDU lengths {1,100,127,128,300,2000}: an independent walker (TS 38.413 / X.691) finds class, procedure code, criticality, the IE ids and criticalities of clause 9.2 and the caller's identifiers and NAS-PDU; identifiers just outside their range (-1, 2^40, 2^32) are refused with an error
+// bound: NGSetupRequest for every gNB id length 22..32 x 4 bit patterns against the X.691 encoding of GlobalRANNodeID; the 8 message constructors x AMF-UE-NGAP-ID in {0,1,255,256,65535,65536,2^32,2^40-1} x RAN-UE-NGAP-ID in {0,1,2^32-1} x NAS-PDU lengths {1,100,127,128,300,2000}: an independent walker (TS 38.413 / X.691) finds class, procedure code, criticality, the IE ids and criticalities of clause 9.2 and the caller's identifiers and NAS-PDU; identifiers just outside their range (-1, 2^40, 2^32) are refused with an error
 func vcBounded_wrappersOnTheWire() {
 	R, I := ngap38413.Reject, ngap38413.Ignore
 	nasLens := []int{1, 100, 127, 128, 300, 2000}
@@ -225,6 +226,38 @@ func vcBounded_wrappersOnTheWire() {
 		panic(vc.Failure{Kind: "bounded", Label: fmt.Sprintf("NGSetupRequest refused: %v", err)})
 	}
 	vcCheckWalk("NGSetupRequest", b, vcExpect{0, ngap38413.ProcNGSetup, R, []int{ngap38413.IEGlobalRANNodeID, R, ngap38413.IERANNodeName, I, ngap38413.IESupportedTAList, R, ngap38413.IEDefaultPagingDRX, I}}, 0, 0, nil)
+	// gNB id of every legal length 22..32 with all bits set / alternating: the GlobalRANNodeID IE value is
+	// the X.691 encoding of { globalGNB-ID { pLMNIdentity, gNB-ID gNB-ID : BIT STRING (SIZE (22..32)) } }
+	for bl := uint64(22); bl <= 32; bl++ {
+		for _, pat := range []byte{0xff, 0xa5, 0x5a, 0x01} {
+			id := bytes.Repeat([]byte{pat}, int((bl+7)/8))
+			if r := bl % 8; r != 0 {
+				id[len(id)-1] &= 0xff << (8 - r) // the caller's id is left-justified: unused low bits zero
+			}
+			plmn := []byte{0x02, 0xf8, 0x39}
+			b, err := GetNGSetupRequest(append([]byte{}, id...), plmn, bl, "gnb")
+			if err != nil {
+				panic(vc.Failure{Kind: "bounded", Label: fmt.Sprintf("NGSetupRequest(gNB id %d bits) refused: %v", bl, err)})
+			}
+			p, err := ngap38413.Walk(b)
+			if err != nil || len(p.IEs) < 1 || p.IEs[0].ID != ngap38413.IEGlobalRANNodeID {
+				panic(vc.Failure{Kind: "bounded", Label: fmt.Sprintf("NGSetupRequest(gNB id %d bits): walker: %v", bl, err)})
+			}
+			w := &per.W{}
+			w.PutBit(0)    // GlobalRANNodeID: extension bit
+			w.Put(0, 2)    // alternative globalGNB-ID of 3 root alternatives
+			w.PutBit(0)    // GlobalGNB-ID: extension bit
+			w.PutBit(0)    // iE-Extensions absent
+			w.OctetString(plmn, true, 3, 3, false)
+			w.PutBit(0) // GNB-ID: extension bit
+			w.Put(0, 0) // single root alternative: no index bits
+			w.BitString(id, int(bl), true, 22, 32, false)
+			w.Align()
+			if !bytes.Equal(p.IEs[0].Value, w.B) {
+				panic(vc.Failure{Kind: "bounded", Label: fmt.Sprintf("NGSetupRequest: gNB id % x (%d bits) is on the wire as % x, X.691 says % x", id, bl, p.IEs[0].Value, w.B)})
+			}
+		}
+	}
 	// out-of-range identifiers are refused, not truncated
 	for _, bad := range [][2]int64{{-1, 1}, {1 << 40, 1}, {1, -1}, {1, 1 << 32}} {
 		if _, err := GetUplinkNASTransport(bad[0], bad[1], []byte{1}); err == nil {
